@@ -179,7 +179,8 @@ int attr_tree_set_value(struct attr_tree *tree, const char *path_str,
 			enum xcm_attr_type type, const void *value, size_t len,
 			void *log_ref)
 {
-    if (!valid_set_attr_len(type, len)) {
+    if (!valid_set_attr_len(type, len) ||
+	(type == xcm_attr_type_str && ((const char *)value)[len - 1] != '\0')) {
 	LOG_ATTR_TREE_SET_INVALID_LEN(log_ref, path_str, len);
 	errno = EINVAL;
 	return -1;
